@@ -83,7 +83,24 @@ def h_empty_axes(kind):
     _check_written(t, a, dict(kind=kind))
 
 
-HARNESSES = {'layout': h_layout, 'after_history': h_after_history, 'empty_axes': h_empty_axes}
+def h_after_load(nr, nc, src):
+    """the table that gets written was itself produced by a reader (what `biom convert --to-hdf5` does)"""
+    from checks.ops import load_via
+    t0, a = make_table(nr, nc, md=pick(['none', 'both'], 'md'), zeros=0, type_='OTU table', unsorted=False, layouts=('csr',))
+    sig = dict(source=src)
+    t, e, a = load_via(src, t0, a)
+    if e is not None:
+        fail('after-load:read-raised', f"{type(e).__name__}: {e}"[:160], **sig)
+        return
+    step = pick(['none', 'filter-inplace', 'transform-inplace'], 'then')
+    if step == 'filter-inplace':
+        t.filter(lambda v, i, m: True, axis='sample')
+    elif step == 'transform-inplace':
+        t.transform(lambda d, i, m: d, axis='observation')
+    _check_written(t, a, dict(sig, then=step))
+
+
+HARNESSES = {'after_load': h_after_load, 'layout': h_layout, 'after_history': h_after_history, 'empty_axes': h_empty_axes}
 
 
 def jobs(tier):
@@ -93,6 +110,9 @@ def jobs(tier):
         for h in HISTORIES:
             if h != 'none':
                 out.append(('after_history', (nr, nc, h)))
+    from checks.ops import LOAD_ORIGINS
+    for src in LOAD_ORIGINS:
+        out.append(('after_load', (2, 2, src)))
     for k in ('0xM', 'Nx0', 'filtered-to-Nx0', 'filtered-to-0xM', 'all-zero', '0x0'):
         out.append(('empty_axes', (k,)))
     return out
